@@ -196,6 +196,26 @@ def bounded(tier, seed):
                                     violations.append(dict(key='write-walk %s len=%d idx=%d elm=%d piece=%d' % (typ, cnt, idx, elm, piece),
                                                            observed=repr(after), required=repr(want)))
                                 vals = after
+    # client side: operation strings that tile a range with Write Tag Fragmented (offset = tile start * element size)
+    from cpppo.server.enip import client
+    from .C12 import ref_operation, norm_op
+    for typ, siz in (('SINT', 1), ('INT', 2), ('DINT', 4), ('LINT', 8), ('REAL', 4), ('LREAL', 8)):
+        for lo, n, piece in ((0, 6, 2), (2, 16, 5), (3, 7, 7), (1, 4, 1)):
+            for start in range(0, n, piece):
+                vals = list(range(start, min(start + piece, n)))
+                txt = 'T[%d-%d]+%d=(%s)%s' % (lo, lo + n - 1, start * siz, typ, ','.join(('%d.5' % v) if typ in ('REAL', 'LREAL') else str(v) for v in vals))
+                stats['evaluations'] += 1
+                distinct.add(('tile', typ, lo, n, piece, start))
+                try:
+                    want = ref_operation(txt, fragment=True)
+                except Exception as e:
+                    want = 'refused'
+                try:
+                    got = norm_op(list(client.parse_operations([txt], fragment=True))[0])
+                except Exception as e:
+                    got = 'refused (%s)' % type(e).__name__
+                if got != want and len(violations) < 8:
+                    violations.append(dict(key='client tile %r' % txt, observed=repr(got)[:300], required=repr(want)[:300]))
     return dict(evaluations=stats['evaluations'], distinct_nontrivial=len(distinct),
                 rule='every (type in SINT/INT/DINT/LINT, tag length, MAX_BYTES budget, start index, element count) in the '
                      'listed ranges: the client loop (offset += bytes received) on the real Logix.request; distinct = distinct tuples',
